@@ -1,0 +1,137 @@
+//! Verification hooks (only compiled with `--cfg truc_verif`).
+//!
+//! Every access `RecordMaybeUninit` performs is checked against the bounds of the buffer, the
+//! alignment of the accessed address and a per-byte ownership shadow
+//! (unowned / owned by a value of some type / moved out). Violations are recorded, never raised.
+
+use std::sync::Mutex;
+
+/// Kind of access performed on the buffer.
+#[derive(Clone, Copy, Debug, PartialEq, Eq)]
+pub enum Access {
+    /// `read`: typed load that moves the value out.
+    Read,
+    /// `write`: store of a value, `aligned` tells whether the store requires an aligned destination.
+    Write {
+        /// Whether the store is performed by alignment-requiring means.
+        aligned: bool,
+    },
+    /// `get`: shared reference.
+    Get,
+    /// `get_mut`: mutable reference.
+    GetMut,
+}
+
+/// Shadow value of a byte no value owns.
+pub const UNOWNED: u8 = 0;
+/// Shadow value of a byte whose value has been moved out.
+pub const MOVED_OUT: u8 = 255;
+
+static VIOLATIONS: Mutex<Vec<String>> = Mutex::new(Vec::new());
+static ACCESSES: Mutex<Vec<(Access, usize, usize, usize, usize, usize)>> = Mutex::new(Vec::new());
+
+fn violation(message: String) {
+    let mut violations = VIOLATIONS.lock().unwrap_or_else(|e| e.into_inner());
+    if violations.len() < 64 {
+        violations.push(message);
+    }
+}
+
+/// Takes the violations recorded so far.
+pub fn take_violations() -> Vec<String> {
+    std::mem::take(&mut *VIOLATIONS.lock().unwrap_or_else(|e| e.into_inner()))
+}
+
+/// Takes the log of accesses `(kind, offset, size, align, address modulo align, capacity)` recorded
+/// since the last call.
+pub fn take_accesses() -> Vec<(Access, usize, usize, usize, usize, usize)> {
+    std::mem::take(&mut *ACCESSES.lock().unwrap_or_else(|e| e.into_inner()))
+}
+
+fn tag<T>() -> u8 {
+    // a small non-zero, non-255 tag derived from the type name
+    let mut h: u32 = 2166136261;
+    for b in std::any::type_name::<T>().bytes() {
+        h = (h ^ b as u32).wrapping_mul(16777619);
+    }
+    1 + (h % 253) as u8
+}
+
+/// Checks and records one access; updates the shadow.
+pub fn access<T>(kind: Access, offset: usize, address: usize, shadow: &mut [u8]) {
+    let cap = shadow.len();
+    let size = std::mem::size_of::<T>();
+    let align = std::mem::align_of::<T>();
+    let name = std::any::type_name::<T>();
+    {
+        let mut accesses = ACCESSES.lock().unwrap_or_else(|e| e.into_inner());
+        if accesses.len() < 4096 {
+            accesses.push((kind, offset, size, align, address % align, cap));
+        }
+    }
+    if offset.checked_add(size).map_or(true, |end| end > cap) {
+        violation(format!(
+            "{:?} of {} at offset {} (size {}) is out of the bounds of a record of capacity {}",
+            kind, name, offset, size, cap
+        ));
+        return;
+    }
+    let needs_alignment = !matches!(kind, Access::Write { aligned: false });
+    if needs_alignment && address % align != 0 {
+        violation(format!(
+            "{:?} of {} at offset {}: address {:#x} is not aligned on {}",
+            kind, name, offset, address, align
+        ));
+    }
+    let needs_drop = std::mem::needs_drop::<T>();
+    let tag = tag::<T>();
+    let bytes = &mut shadow[offset..offset + size];
+    match kind {
+        Access::Write { .. } => {
+            if let Some(owner) = bytes.iter().find(|b| **b != UNOWNED && **b != MOVED_OUT && **b >= 128) {
+                violation(format!(
+                    "store of {} at offset {} lands on a droppable value the record still owns (tag {})",
+                    name, offset, owner
+                ));
+            }
+            // droppable values are tagged in the upper half so that stores onto them are detected
+            let t = if needs_drop { 128 + tag % 127 } else { 1 + tag % 127 };
+            bytes.iter_mut().for_each(|b| *b = t);
+        }
+        Access::Read | Access::Get | Access::GetMut => {
+            let t = if needs_drop { 128 + tag % 127 } else { 1 + tag % 127 };
+            if needs_drop {
+                if bytes.iter().any(|b| *b != t) {
+                    violation(format!(
+                        "{:?} of {} at offset {} where no value of that type is stored (shadow {:?})",
+                        kind,
+                        name,
+                        offset,
+                        &bytes[..bytes.len().min(8)]
+                    ));
+                }
+                if kind == Access::Read {
+                    bytes.iter_mut().for_each(|b| *b = MOVED_OUT);
+                }
+            } else if bytes.iter().any(|b| *b != t && *b != UNOWNED) {
+                violation(format!(
+                    "{:?} of {} at offset {} over bytes that belong to another value (shadow {:?})",
+                    kind,
+                    name,
+                    offset,
+                    &bytes[..bytes.len().min(8)]
+                ));
+            }
+        }
+    }
+}
+
+/// Called when a buffer is dropped: no droppable value may still be owned.
+pub fn buffer_dropped(shadow: &[u8]) {
+    if let Some(position) = shadow.iter().position(|b| *b >= 128 && *b != MOVED_OUT) {
+        violation(format!(
+            "a record buffer is dropped while it still owns a droppable value at offset {}",
+            position
+        ));
+    }
+}
